@@ -1,5 +1,5 @@
 (* C17 - evaluation entry points for the correspondence harness. *)
-From CfdmV Require Import Common.Base Tables.AppendConstants C17.Model.
+From CfdmV Require Import Common.Base Tables.AppendConstants C17.Model C17.Spec.
 Open Scope string_scope.
 Open Scope list_scope.
 
@@ -28,9 +28,9 @@ Definition outcome_code (o : outcome) : nat :=
 (* a case: format is NETCDF4?, the file before (netCDF4-python), the fields
    cfdm reads from it, the fields appended, and what the implementation did:
    outcome class and the file afterwards *)
-Definition run_case (vr : variant) (cs : bool * file * list field * list field * file * nat) : bool :=
-  let '(nc4, e, orig, new, e', oc) := cs in
-  let '(fl, out) := append vr nc4 e orig new in
+Definition run_case (vr : variant) (cs : bool * gopts * file * list field * list field * file * nat) : bool :=
+  let '(nc4, o, e, orig, new, e', oc) := cs in
+  let '(fl, out) := append vr nc4 o e orig new in
   Nat.eqb (outcome_code out) oc &&
   match out with Failed => true | _ => file_eqb fl e' end.
 
@@ -42,5 +42,31 @@ Definition check_refusal (cs : bool * list field * list field * bool) : bool :=
   let '(nc4, orig, new, refused) := cs in Bool.eqb (refuse new_code nc4 orig new) refused.
 
 (* debugging aid: the model's file *)
-Definition model_file (cs : bool * file * list field * list field * file * nat) :=
-  let '(nc4, e, orig, new, e', oc) := cs in append new_code nc4 e orig new.
+Definition model_file (cs : bool * gopts * file * list field * list field * file * nat) :=
+  let '(nc4, o, e, orig, new, e', oc) := cs in append new_code nc4 o e orig new.
+
+(* cfdm.write(mode='w') of the file that exists before the appends: the
+   global attributes that the model says are written (the other side of the
+   guard in _write_global_attributes), and the whole file *)
+Definition check_created_globals (cs : gopts * list field * props) : bool :=
+  let '(o, fs, gatts) := cs in
+  let s := create_run new_code o fs in
+  w_err s || set_eqb pair_eqb (d_gatts (w_file s)) gatts.
+
+Definition check_created (cs : gopts * list field * file) : bool :=
+  let '(o, fs, fl) := cs in
+  let s := create_run new_code o fs in
+  w_err s || file_eqb (w_file s) fl.
+
+(* the hypothesis of C17_old_fields on the real re-read: the dry run over
+   what cfdm.read returned registers every name of the file (netCDF4 view) *)
+Definition check_covers (cs : file * list field) : bool :=
+  let '(e, orig) := cs in covers new_code e orig.
+
+(* the abstract reader against cfdm.read: the data variables of the file are
+   the netCDF variables of the fields read from it *)
+Definition check_reader (cs : file * list field) : bool :=
+  let '(e, orig) := cs in
+  set_eqb String.eqb (map v_name (data_vars e))
+          (concat (map (fun f => match f_ncvar f with Some n => [n] | None => [] end) orig)) &&
+  Nat.eqb (length (data_vars e)) (length orig).
